@@ -104,11 +104,23 @@ class Actor:
         sim = self.sim
         sim.by_ident[_thread.get_ident()] = self
         try:
-            self.result = self.fn()
+            try:
+                self.result = self.fn()
+            except Killed:
+                raise
+            except BaseException as e:   # noqa: B036 - the outcome of the simulated process
+                self.exc = e
+            if self.attrs.get("atexit") and self.attrs.get("proc") is None:
+                for func, args, kwargs in reversed(self.attrs.pop("atexit")):
+                    try:
+                        sim.stats["probe:atexit-handler-run"] += 1
+                        func(*args, **kwargs)
+                    except Killed:
+                        raise
+                    except Exception:        # Python prints and ignores it
+                        pass
         except Killed:
             pass
-        except BaseException as e:   # noqa: B036 - the outcome of the simulated process
-            self.exc = e
         finally:
             sim.locks.release_actor(self.id)
             if not self.dead:
@@ -571,6 +583,25 @@ def _mk_fdop(name):
     return wrapper
 
 
+def _sim_atexit_register(func, *args, **kwargs):
+    """Exit handlers belong to the simulated process: they run when its loader ends - by returning or by an exception,
+    SIGINT included - and never when it is killed.  (A process shared by several sequential loads does not exit
+    within a run.)"""
+    sim, a = _actor()
+    if a is None:
+        return REAL["atexit.register"](func, *args, **kwargs)
+    a.attrs.setdefault("atexit", []).append((func, args, kwargs))
+    sim.stats["probe:atexit-registered"] += 1
+    return func
+
+
+def _sim_atexit_unregister(func):
+    sim, a = _actor()
+    if a is None:
+        return REAL["atexit.unregister"](func)
+    a.attrs["atexit"] = [h for h in a.attrs.get("atexit", []) if h[0] != func]
+
+
 def _sim_sleep(seconds):
     sim = ACTIVE
     a = sim.by_ident.get(_thread.get_ident()) if sim is not None else None
@@ -851,6 +882,9 @@ def install():
             REAL[name] = getattr(os, name)
             setattr(os, name, _mk_fdop(name))
     time.sleep = _sim_sleep
+    import atexit
+    REAL["atexit.register"], REAL["atexit.unregister"] = atexit.register, atexit.unregister
+    atexit.register, atexit.unregister = _sim_atexit_register, _sim_atexit_unregister
     urllib.request.urlretrieve = _net_entry("urlretrieve")
     urllib.request.urlopen = _net_entry("urlopen")
     hashlib.sha256 = _sim_sha256
